@@ -4,6 +4,12 @@ import json
 import sys
 
 LEVEL_TEXT = {
+    'C08': ("PARTIAL w.r.t. the C++ memory model. The bodies of evaluateDeferredConnections / enqueueSlotInvocation / dequeueSlotInvocation are regenerated as a small "
+            "IR from clang's AST on every run and proved equal to the IR of the theorems. Machine-checked: queue and flag are touched only under the mutex and the "
+            "user hook is called outside it; with the methods' lock skeletons, any number of threads running any sequences of emissions (hook taking a user lock), "
+            "disconnects and passes (optionally under that user lock) never deadlock under any schedule; for every history of the (then atomic) critical sections a "
+            "queued invocation runs at most once, exactly once at the next pass unless cancelled, only on an evaluating thread, and after a disconnect has returned "
+            "nothing queued before it runs. Tie on the implementation side: randomly timed real-thread scenarios under ThreadSanitizer with a deadlock watchdog.", '6/C08'),
     'C17': ("PARTIAL. Machine-checked: (i) every variable of static or thread storage duration declared by the headers - the list is regenerated from clang's AST on "
             "every run - is thread_local or immutable; (ii) under the footprint discipline (a call touches only objects of its thread plus such statics) every "
             "interleaving of any per-thread call sequences gives each thread exactly the result of running alone. That the binary has no other hidden sharing is "
@@ -119,7 +125,7 @@ def main():
     }
     for p in claimed:
         text, ref = LEVEL_TEXT[p]
-        tech = TECH if p not in ('C14', 'C17', 'C18', 'C20') else 'Coq proof over tables regenerated from the source by a clang-AST translator + compile/run grid'
+        tech = TECH if p not in ('C08', 'C14', 'C17', 'C18', 'C20') else 'Coq proof over tables regenerated from the source by a clang-AST translator + compile/run grid'
         m['checks'].append({
             'property_id': p,
             'quick_cmd': f'bin/verif check {p} --tier quick',
